@@ -287,6 +287,66 @@ def _plugin_task(args):
     return out
 
 
+def _cross_task(args):
+    """Histories across plugins in ONE process on the same model file: every ordered pair (thorough: triple) of
+    distinct plugins; after each run the plugin's output must equal its own reference (fresh process)."""
+    thorough, seed = args
+    import itertools
+    work = scratch("lspverif-c16-cross-")
+    out = {"plugin": "cross", "bad": [], "histories": 0, "states": 0, "transitions": 0, "runs": 0, "cli_runs": 0, "samples": [],
+           "distinct_outcomes": 0, "max_history_length": 3 if thorough else 2}
+    plugins = ["python", "rust", "dotnet"]
+    try:
+        mp_ = docs.write(docs.committed(), os.path.join(work, "M.json"))
+        ref = {}
+        for p in plugins:
+            o, t = os.path.join(work, "ref_o"), os.path.join(work, "ref_t")
+            os.makedirs(o), os.makedirs(t)
+            prepare_test_dir(p, t)
+            r = run_cli(p, o, t, [mp_], hashseed="0")
+            out["cli_runs"] += 1
+            if r.returncode != 0:
+                out["bad"].append(("reference-fails", p, "reference run of %s exits %d" % (p, r.returncode), {"history": ["Run(%s)" % p]}))
+            ref[p] = owned_digest(o, t)
+            rm(o), rm(t)
+        seqs = list(itertools.permutations(plugins, 2))
+        if thorough:
+            seqs += list(itertools.permutations(plugins, 3))
+        outcomes = set()
+        for seq in seqs:
+            out["histories"] += 1
+            label = ["Run(%s)" % p for p in seq]
+            for i, p in enumerate(seq):
+                o, t = os.path.join(work, "o"), os.path.join(work, "t")
+                rm(o), rm(t)
+                os.makedirs(o), os.makedirs(t)
+                prepare_test_dir(p, t)
+                err = run_inprocess(p, o, t, [mp_])
+                out["runs"] += 1
+                out["transitions"] += 1
+                if err:
+                    out["bad"].append(("run-fails", "cross", "%s fails in one process after %s: %s" % (p, label[:i], err), {"history": label[:i + 1]}))
+                    outcomes.add("fails")
+                    continue
+                d = owned_digest(o, t)
+                outcomes.add(hashlib.sha256(json.dumps(sorted(d.items())).encode()).hexdigest()[:8])
+                if d != ref[p]:
+                    changed = sorted(k for k in set(d) | set(ref[p]) if d.get(k) != ref[p].get(k))
+                    out["bad"].append(("output-differs", "cross", "%s run in the same process after %s is not byte-identical to its reference run: %s" % (
+                        p, label[:i] or "nothing", changed[:3]), {"history": label[:i + 1]}))
+            rm(os.path.join(work, "o")), rm(os.path.join(work, "t"))
+        out["states"] = len(outcomes)
+        out["distinct_outcomes"] = len(outcomes)
+        out["samples"].append({"plugin": "cross", "history": ["Run(python)", "Run(rust)"], "ok": True})
+    finally:
+        rm(work)
+    return out
+
+
+def _any_task(args):
+    return _cross_task(args[1:]) if args[0] == "cross" else _plugin_task(args)
+
+
 def _evname(ev):
     if ev[0] == "Run":
         return "Run(%s,set=%s,uuid=%s)" % (ev[1], ev[2][0], ev[2][1] or "real")
@@ -297,8 +357,8 @@ def run(ctx):
     res = Result()
     impl.setup_paths()
     plugins = ["python", "rust", "dotnet", "testdata"]
-    with mp.get_context("fork").Pool(4) as pool:
-        parts = pool.map(_plugin_task, [(p, ctx.thorough, ctx.seed) for p in plugins], chunksize=1)
+    with mp.get_context("fork").Pool(5) as pool:
+        parts = pool.map(_any_task, [(p, ctx.thorough, ctx.seed) for p in plugins] + [("cross", ctx.thorough, ctx.seed)], chunksize=1)
     tot = {"histories": 0, "states": 0, "transitions": 0, "runs": 0, "cli_runs": 0}
     samples = []
     per = {}
